@@ -1,3 +1,4 @@
+import McpModel.Wire.Ref
 import McpModel.Wire.Sse
 import McpModel.Wire.Result
 import McpModel.Wire.Input
@@ -229,6 +230,9 @@ inductive Clause where
   | lost (n q : Nat)
   | rejectedF2_19 | rejected19 | rejectedF2_02 | rejected02
   | dtWrite | badFrame | writtenDiffers
+  | cwCrash (c : Crash) | cwGarbled (n : Nat) | cwLost (m : Msg)
+  | logDiffers (passed logged : Nat)
+  | refRefused | refChanged | refInconsistentWritten | refInconsistentAccepted | refReencDiffers
   | dtNdReader (c : Crash) | ndNotValueByValue
   | writePanic02 | flushedEarly | notOnItsOwn | arrayNotExact | withheld (hasNotif : Bool) | lastOnItsOwn
   -- frames through the other readers
@@ -818,6 +822,102 @@ def Verd.selectWrite (v : Verd) (pid : Pid) : Option Clause :=
   match pid with
   | .c02 => v.v02
   | _ => v.v19
+
+/-! ## concurrent writers on one connection -/
+
+/-- `io.cw`: the lines of the stream after several goroutines called `Write` at the same time (in any
+order; `none`: a line that is no JSON value on its own) -/
+inductive CwObs where
+  | crash (c : Crash)
+  | lines (l : List (Option JVal))
+  | other
+deriving Repr, Inhabited
+
+/-- messages that are never held back or merged: calls and notifications on a connection without
+outgoing batching (responses may be parked in the reply to an incoming batch) -/
+def onItsOwn (outCap : Nat) : Msg → Bool
+  | .request .. => outCap == 0
+  | _ => false
+
+def lineIs (m : Msg) : Option JVal → Bool
+  | some v => (wireDiff v (encodeMsg m)).isNone
+  | none => false
+
+/-- every line of the stream is a JSON value of its own — the frames of the writers do not run into each
+other — and every message that goes out on its own is one of the lines, as given -/
+def cwMonitor (outCap : Nat) (msgs : List Msg) (o : CwObs) : Option Clause :=
+  match o with
+  | .crash c => some (.cwCrash c)
+  | .other => some .badObservation
+  | .lines l =>
+    if l.any Option.isNone then some (.cwGarbled (l.filter Option.isNone).length)
+    else match msgs.find? (fun m => onItsOwn outCap m && !l.any (lineIs m)) with
+      | some m => some (.cwLost m)
+      | none => none
+
+/-! ## a connection behind a `LoggingTransport` -/
+
+/-- what the harness saw pass through the wrapper -/
+inductive Passed where
+  | read (m : Msg) | readErr | write (m : Msg)
+deriving Repr, Inhabited
+
+inductive LogObs where
+  | entries (l : List (Option LogEntry))    -- `none`: a line that is no log entry
+  | other
+deriving Repr, Inhabited
+
+def entryIs : Passed → Option LogEntry → Bool
+  | .read m, some (.read v) => (wireDiff v (encodeMsg m)).isNone
+  | .readErr, some .readErr => true
+  | .write m, some (.write v) => (wireDiff v (encodeMsg m)).isNone
+  | _, _ => false
+
+def entriesAre : List Passed → List (Option LogEntry) → Bool
+  | [], [] => true
+  | p :: ps, e :: es => entryIs p e && entriesAre ps es
+  | _, _ => false
+
+/-- `io.log`: the log shows what passed, in order: every message as an encoding of THAT message -/
+def logMonitor (passed : List Passed) (o : LogObs) : Option Clause :=
+  match o with
+  | .other => some .badObservation
+  | .entries l => if entriesAre passed l then none else some (.logDiffers passed.length l.length)
+
+/-! ## the `CompleteReference` codec -/
+
+/-- `ref.rt`: what `json.Marshal` of a reference gave, and what `json.Unmarshal` made of the text -/
+inductive RefRtObs where
+  | refused
+  | written (v : JVal) (back : Option CRef)
+  | other
+deriving Repr, Inhabited
+
+def refRtMonitor (r : CRef) (o : RefRtObs) : Option Clause :=
+  match o with
+  | .other => some .badObservation
+  | .refused => if refCheck r = .ok () then some .refRefused else none
+  | .written _ back =>
+    if refCheck r = .ok () then (if back = some r then none else some .refChanged)
+    else some .refInconsistentWritten
+
+/-- `ref.dec`: what `json.Unmarshal` made of a JSON value, and what `json.Marshal` wrote for the result -/
+inductive RefDecObs where
+  | rejected
+  | accepted (r : CRef) (reenc : Option JVal)
+  | other
+deriving Repr, Inhabited
+
+def refDecMonitor (o : RefDecObs) : Option Clause :=
+  match o with
+  | .other => some .badObservation
+  | .rejected => none
+  | .accepted r reenc =>
+    if refCheck r = .ok () then
+      (match reenc, encodeRef r with
+        | some w, .ok v => if sameJ w v then none else some .refReencDiffers
+        | _, _ => some .refReencDiffers)
+    else some .refInconsistentAccepted
 
 /-! ## the byte stream of an io connection through its reader goroutine -/
 
